@@ -449,6 +449,14 @@ Proof.
   destruct (p_is_fragment p); cbn [map]; rewrite IH; reflexivity.
 Qed.
 
+Lemma eg_dispatch_ip_parts ip_mtu ident fr hwst d :
+  eg_dispatch_ip ip_mtu ident fr hwst d =
+  (fst (fst (f4_dispatch_ip ip_mtu ident fr (snd d))),
+   match snd (f4_dispatch_ip ip_mtu ident fr (snd d)) with DipFragStarted => fst d | _ => hwst end,
+   map (pair (fst d)) (snd (fst (f4_dispatch_ip ip_mtu ident fr (snd d)))),
+   snd (f4_dispatch_ip ip_mtu ident fr (snd d))).
+Proof. unfold eg_dispatch_ip. destruct (f4_dispatch_ip ip_mtu ident fr (snd d)) as ((fr', out), r). reflexivity. Qed.
+
 Section EgressOrder.
 Variable ip_mtu : Z.
 Hypothesis Hmtu : f4_hdr + 8 <= ip_mtu.
@@ -584,7 +592,7 @@ Proof.
     + specialize (IH fr hwst id b hist Hs Hqrest).
       destruct (eg_socket_egress ip_mtu fr hwst id b rest) as ((((((fr2, hw2), id2), b2), rest2), out2), ch).
       destruct IH as (IH1 & IH2). split; [exact IH1 | constructor; assumption].
-    + destruct (eg_needs_frag ip_mtu (snd d) && negb (fr_finished fr)).
+    + destruct (negb (fr_finished fr)).
       * specialize (IH fr hwst id b hist Hs Hqrest).
         destruct (eg_socket_egress ip_mtu fr hwst id b rest) as ((((((fr2, hw2), id2), b2), rest2), out2), ch).
         destruct IH as (IH1 & IH2). split; [exact IH1 | constructor; assumption].
@@ -698,6 +706,295 @@ Proof.
     rewrite filter_app, app_assoc. exact IH.
 Qed.
 
+
+(* ---------- no socket packet between the fragments of a train ---------- *)
+
+(* the datagrams that are ingress-triggered replies (they bypass socket_egress) *)
+Variable replies : list dgram.
+
+Definition is_reply (f : frame) : Prop :=
+  exists P, In (fst f, P) replies /\ snd f = mkPkt 0 0 false P.
+
+(* scan of the wire: [in_train] = a first fragment has been seen and its last fragment not yet.
+   A fragment sets the state to its MF flag; a whole packet seen inside a train must be an
+   ingress-triggered reply (never a socket packet) *)
+Fixpoint wire_ok (in_train : bool) (out : list frame) : Prop :=
+  match out with
+  | [] => True
+  | f :: rest =>
+      if frame_is_fragment f then wire_ok (p_mf (snd f)) rest
+      else (in_train = true -> is_reply f) /\ wire_ok in_train rest
+  end.
+
+Fixpoint train_state (b : bool) (out : list frame) : bool :=
+  match out with
+  | [] => b
+  | f :: rest => train_state (if frame_is_fragment f then p_mf (snd f) else b) rest
+  end.
+
+Lemma train_state_app o1 : forall b o2, train_state b (o1 ++ o2) = train_state (train_state b o1) o2.
+Proof. induction o1 as [|f o1 IH]; intros b o2; [reflexivity | cbn; apply IH]. Qed.
+
+Lemma wire_ok_app o1 : forall b o2,
+  wire_ok b (o1 ++ o2) <-> wire_ok b o1 /\ wire_ok (train_state b o1) o2.
+Proof.
+  induction o1 as [|f o1 IH]; intros b o2; cbn [app wire_ok train_state]; [tauto|].
+  destruct (frame_is_fragment f); rewrite IH; tauto.
+Qed.
+
+(* [out] emitted while the fragmenter goes from [fr] to [fr']: correct on the wire, and the scan
+   state tracks "fragmenter not finished" *)
+Definition wire_step (fr : fragmenter) (out : list frame) (fr' : fragmenter) : Prop :=
+  wire_ok (negb (fr_finished fr)) out /\
+  train_state (negb (fr_finished fr)) out = negb (fr_finished fr').
+
+Lemma wire_step_nil fr fr' : fr_finished fr' = fr_finished fr -> wire_step fr [] fr'.
+Proof. intros H. split; [exact I | cbn; rewrite H; reflexivity]. Qed.
+
+Lemma wire_step_app fr o1 fr1 o2 fr2 :
+  wire_step fr o1 fr1 -> wire_step fr1 o2 fr2 -> wire_step fr (o1 ++ o2) fr2.
+Proof.
+  intros (H1 & H2) (H3 & H4). split.
+  - apply wire_ok_app. rewrite H2. split; assumption.
+  - rewrite train_state_app, H2. exact H4.
+Qed.
+
+Lemma stream_ok_wf fr hwst hist :
+  stream_ok fr hwst hist -> fr_finished fr = true \/ exists P off, fr_progress fr P off.
+Proof.
+  intros (done & cur & _ & _ & [(H & _) | (d & off & _ & _ & Hp & _)]); [left; exact H|].
+  right. exists (snd d), off. exact Hp.
+Qed.
+
+(* dispatch_ip: a packet dispatched while fragments are unsent must be an ingress reply *)
+Lemma dispatch_ip_wire ident fr hwst d :
+  (fr_finished fr = false -> In d replies) ->
+  let '(fr', _, out, _) := eg_dispatch_ip ip_mtu ident fr hwst d in
+  wire_step fr out fr'.
+Proof.
+  intros Hrep. rewrite eg_dispatch_ip_parts. destruct d as (hw, P). cbn [fst snd] in *.
+  destruct (Z_le_gt_dec (f4_hdr + zlen P) ip_mtu) as [Hsmall | Hbig].
+  { rewrite dispatch_ip_small by exact Hsmall. cbn [fst snd map]. split.
+    - cbn [wire_ok frame_is_fragment snd p_is_fragment p_mf p_offset orb].
+      change (negb (0 =? 0)) with false. cbn [orb]. split; [|exact I].
+      intros Hb. exists P. split; [|reflexivity]. apply Hrep. destruct (fr_finished fr); [discriminate | reflexivity].
+    - reflexivity. }
+  destruct (Z_lt_ge_dec (zlen (fr_buffer fr)) (f4_hdr + zlen P)) as [Htoo | Hfit].
+  { rewrite dispatch_ip_too_big by lia. cbn [fst snd map]. apply wire_step_nil. reflexivity. }
+  destruct (fr_finished fr) eqn:Hfin.
+  - destruct (dispatch_ip_start ip_mtu ident fr P Hmtu Hfin ltac:(lia) ltac:(lia)) as (fr' & Hd & Hp & _).
+    rewrite Hd. cbn [fst snd map]. unfold wire_step. rewrite Hfin, (progress_not_finished _ _ _ Hp).
+    split; [exact I | reflexivity].
+  - pose proof (dispatch_ip_busy_preserves ip_mtu ident fr P Hfin) as H1.
+    assert (H2 : snd (fst (f4_dispatch_ip ip_mtu ident fr P)) = []).
+    { unfold f4_dispatch_ip. cbv zeta. rewrite Hfin.
+      replace (f4_hdr + zlen P >? ip_mtu) with true by lia.
+      replace (zlen (fr_buffer fr) <? f4_hdr + zlen P) with false by lia. reflexivity. }
+    rewrite H1, H2. cbn [map]. apply wire_step_nil. reflexivity.
+Qed.
+
+Lemma frag_step_mf fr P off :
+  fr_progress fr P off ->
+  let '(fr', p) := f4_dispatch_ipv4_frag ip_mtu fr in
+  p_is_fragment p = true /\ p_mf p = negb (fr_finished fr').
+Proof.
+  intros Hp. pose proof (frag_step_train ip_mtu fr P off Hmtu Hp) as Hs.
+  pose proof (frag_step ip_mtu fr P off Hmtu Hp) as Hfs.
+  destruct (f4_dispatch_ipv4_frag ip_mtu fr) as (fr', p). cbv zeta in Hfs.
+  destruct Hs as (Hisf & _). split; [exact Hisf|].
+  destruct Hfs as (Hpk & _ & _ & _ & Hfin & Hprog).
+  pose proof (maxsz_facts ip_mtu Hmtu) as (Hm8 & _).
+  destruct Hp as (_ & _ & _ & _ & _ & _ & Holt & _).
+  rewrite Hpk. cbn [p_mf].
+  destruct (Z_le_gt_dec (zlen P - off) (f4_maxsz ip_mtu)) as [Hle | Hgt].
+  - rewrite (Hfin Hle). cbn [negb]. lia.
+  - rewrite (progress_not_finished _ _ _ (Hprog ltac:(lia))). cbn [negb]. lia.
+Qed.
+
+Lemma ipv4_egress_wire can fr hwst hist :
+  stream_ok fr hwst hist ->
+  let '(fr', _, out) := eg_ipv4_egress ip_mtu can fr hwst in
+  wire_step fr out fr'.
+Proof.
+  intros Hs. destruct (stream_ok_wf _ _ _ Hs) as [Hfin | (P & off & Hp)]; unfold eg_ipv4_egress, f4_ipv4_egress.
+  - rewrite Hfin. assert (He : fr_is_empty (fr_reset fr) = true) by reflexivity. rewrite He.
+    cbn [map]. apply wire_step_nil. rewrite Hfin. reflexivity.
+  - rewrite (progress_not_finished _ _ _ Hp).
+    pose proof Hp as (_ & Hpl & Hsb & _ & _ & _ & Holt & _).
+    assert (Hne : fr_is_empty fr = false).
+    { unfold fr_is_empty. rewrite Hpl. pose proof (zlen_nonneg P). unfold f4_hdr, wipv4_HEADER_LEN. lia. }
+    rewrite Hne. replace (fr_packet_len fr >? fr_sent_bytes fr) with true by lia.
+    destruct can; cbn [andb].
+    + pose proof (frag_step_mf fr P off Hp) as Hm.
+      destruct (f4_dispatch_ipv4_frag ip_mtu fr) as (fr', p). destruct Hm as (Hisf & Hmf).
+      cbn [map]. unfold wire_step. cbn [wire_ok train_state]. unfold frame_is_fragment. cbn [snd].
+      rewrite Hisf. split; [exact I | exact Hmf].
+    + cbn [map]. apply wire_step_nil. reflexivity.
+Qed.
+
+Lemma ingress_wire : forall rx fr hwst id b hist,
+  stream_ok fr hwst hist -> Forall (fun d => In d sub) rx -> Forall (fun d => In d replies) rx ->
+  let '(fr', _, _, _, _, out) := eg_ingress ip_mtu fr hwst id b rx in
+  wire_step fr out fr'.
+Proof.
+  induction rx as [|reply rest IH]; intros fr hwst id b hist Hs Hsub Hrx; cbn [eg_ingress].
+  - apply wire_step_nil. reflexivity.
+  - destruct (bud_has b); [|apply wire_step_nil; reflexivity].
+    inversion Hrx as [|? ? Hr Hrest]; subst. inversion Hsub as [|? ? Hr' Hrest']; subst.
+    pose proof (dispatch_ip_stream id fr hwst reply hist Hs Hr') as H1.
+    pose proof (dispatch_ip_wire id fr hwst reply (fun _ => Hr)) as H2.
+    destruct (eg_dispatch_ip ip_mtu id fr hwst reply) as (((fr1, hw1), out), r).
+    specialize (IH fr1 hw1 (eg_next_id id) (match out with [] => b | _ :: _ => bud_dec b end) _ H1 Hrest' Hrest).
+    destruct (eg_ingress ip_mtu fr1 hw1 (eg_next_id id) _ rest) as (((((fr2, hw2), id2), b2), rx2), out2).
+    eapply wire_step_app; eassumption.
+Qed.
+
+Lemma socket_egress_wire : forall socks fr hwst id b hist,
+  stream_ok fr hwst hist -> queues_in_sub socks ->
+  let '(fr', _, _, _, _, out, _) := eg_socket_egress ip_mtu fr hwst id b socks in
+  wire_step fr out fr'.
+Proof.
+  induction socks as [|q rest IH]; intros fr hwst id b hist Hs Hq; cbn [eg_socket_egress].
+  - apply wire_step_nil. reflexivity.
+  - inversion Hq as [|? ? Hq1 Hqrest]; subst.
+    destruct q as [|d q'].
+    + specialize (IH fr hwst id b hist Hs Hqrest).
+      destruct (eg_socket_egress ip_mtu fr hwst id b rest) as ((((((fr2, hw2), id2), b2), rest2), out2), ch).
+      exact IH.
+    + destruct (negb (fr_finished fr)) eqn:Hbusy.
+      * specialize (IH fr hwst id b hist Hs Hqrest).
+        destruct (eg_socket_egress ip_mtu fr hwst id b rest) as ((((((fr2, hw2), id2), b2), rest2), out2), ch).
+        exact IH.
+      * destruct (negb (bud_has b)); [apply wire_step_nil; reflexivity|].
+        inversion Hq1 as [|? ? Hp Hq']; subst.
+        assert (Hfin : fr_finished fr = true) by (destruct (fr_finished fr); [reflexivity | discriminate]).
+        pose proof (dispatch_ip_stream id fr hwst d hist Hs Hp) as H1.
+        pose proof (dispatch_ip_wire id fr hwst d ltac:(intros H; congruence)) as H2.
+        destruct (eg_dispatch_ip ip_mtu id fr hwst d) as (((fr1, hw1), out), r).
+        specialize (IH fr1 hw1 (eg_next_id id) (match out with [] => b | _ :: _ => bud_dec b end) _ H1 Hqrest).
+        destruct (eg_socket_egress ip_mtu fr1 hw1 (eg_next_id id) _ rest)
+          as ((((((fr2, hw2), id2), b2), rest2), out2), ch).
+        eapply wire_step_app; eassumption.
+Qed.
+
+Definition eg_inv_w (st : egress) (hist : list frame) : Prop :=
+  eg_inv st hist /\ Forall (fun d => In d replies) (eg_rx st).
+
+Lemma poll_egress_wire st b hist :
+  eg_inv st hist ->
+  let '(st', _, out, _) := eg_poll_egress ip_mtu st b in
+  wire_step (eg_fr st) out (eg_fr st').
+Proof.
+  intros (Hs & Hq & Hr). unfold eg_poll_egress.
+  pose proof (ipv4_egress_stream (bud_has b) (eg_fr st) (eg_hw st) hist Hs) as H1.
+  pose proof (ipv4_egress_wire (bud_has b) (eg_fr st) (eg_hw st) hist Hs) as W1.
+  destruct (eg_ipv4_egress ip_mtu (bud_has b) (eg_fr st) (eg_hw st)) as ((fr1, hw1), out1).
+  pose proof (socket_egress_wire (eg_socks st) fr1 hw1 (eg_id st)
+                (match out1 with [] => b | _ :: _ => bud_dec b end) _ H1 Hq) as W2.
+  destruct (eg_socket_egress ip_mtu fr1 hw1 (eg_id st) _ (eg_socks st))
+    as ((((((fr2, hw2), id2), b2), socks2), out2), ch).
+  cbn [eg_fr]. eapply wire_step_app; eassumption.
+Qed.
+
+Lemma egress_loop_wire : forall fuel st b hist,
+  eg_inv st hist ->
+  let '(st', _, out) := eg_egress_loop fuel ip_mtu st b in
+  wire_step (eg_fr st) out (eg_fr st').
+Proof.
+  induction fuel as [|k IH]; intros st b hist Hi; cbn [eg_egress_loop].
+  - apply wire_step_nil. reflexivity.
+  - pose proof (poll_egress_inv st b hist Hi) as H1.
+    pose proof (poll_egress_wire st b hist Hi) as W1.
+    destruct (eg_poll_egress ip_mtu st b) as (((st1, b1), out1), ch).
+    destruct ch; [|exact W1].
+    specialize (IH st1 b1 _ H1).
+    destruct (eg_egress_loop k ip_mtu st1 b1) as ((st2, b2), out2).
+    eapply wire_step_app; eassumption.
+Qed.
+
+Lemma ingress_rx_Forall (Q : dgram -> Prop) : forall rx fr hwst id b,
+  Forall Q rx -> Forall Q (snd (fst (eg_ingress ip_mtu fr hwst id b rx))).
+Proof.
+  induction rx as [|r rest IH]; intros fr hw id b H; cbn [eg_ingress]; [constructor|].
+  inversion H; subst. destruct (bud_has b); [|cbn; assumption].
+  destruct (eg_dispatch_ip ip_mtu id fr hw r) as (((fr1, hw1), out), rr).
+  specialize (IH fr1 hw1 (eg_next_id id) (match out with [] => b | _ :: _ => bud_dec b end) H3).
+  destruct (eg_ingress ip_mtu fr1 hw1 (eg_next_id id) _ rest) as (((((fr2, hw2), id2), b2), rx2), out2).
+  exact IH.
+Qed.
+
+Lemma poll_egress_rx st b : eg_rx (fst (fst (fst (eg_poll_egress ip_mtu st b)))) = eg_rx st.
+Proof.
+  unfold eg_poll_egress.
+  destruct (eg_ipv4_egress ip_mtu (bud_has b) (eg_fr st) (eg_hw st)) as ((fra, hwa), oa).
+  destruct (eg_socket_egress ip_mtu fra hwa (eg_id st) _ (eg_socks st)) as ((((((frb, hwb), idb), bb), sb), ob), ch).
+  reflexivity.
+Qed.
+
+Lemma egress_loop_rx : forall fuel st b, eg_rx (fst (fst (eg_egress_loop fuel ip_mtu st b))) = eg_rx st.
+Proof.
+  induction fuel as [|k IH]; intros st b; cbn [eg_egress_loop]; [reflexivity|].
+  pose proof (poll_egress_rx st b) as H1.
+  destruct (eg_poll_egress ip_mtu st b) as (((st1, b1), out1), ch). cbn [fst] in H1.
+  destruct ch; [|exact H1].
+  specialize (IH st1 b1). destruct (eg_egress_loop k ip_mtu st1 b1) as ((st2, b2), out2).
+  cbn [fst] in *. congruence.
+Qed.
+
+Lemma poll_wire st b hist :
+  eg_inv_w st hist ->
+  let '(st', out) := eg_poll ip_mtu st b in
+  wire_step (eg_fr st) out (eg_fr st') /\ Forall (fun d => In d replies) (eg_rx st').
+Proof.
+  intros ((Hs & Hq & Hr) & Hrep). unfold eg_poll.
+  pose proof (ingress_stream (eg_rx st) (eg_fr st) (eg_hw st) (eg_id st) b hist Hs Hr) as H1.
+  pose proof (ingress_wire (eg_rx st) (eg_fr st) (eg_hw st) (eg_id st) b hist Hs Hr Hrep) as W1.
+  pose proof (ingress_rx_Forall _ (eg_rx st) (eg_fr st) (eg_hw st) (eg_id st) b Hrep) as Hrx.
+  destruct (eg_ingress ip_mtu (eg_fr st) (eg_hw st) (eg_id st) b (eg_rx st))
+    as (((((fr1, hw1), id1), b1), rx1), out1).
+  cbn [fst snd] in Hrx. destruct H1 as (H1 & H1r).
+  assert (Hi1 : eg_inv (mkEg fr1 hw1 id1 (eg_socks st) rx1) (hist ++ filter frame_is_fragment out1))
+    by (repeat split; assumption).
+  pose proof (egress_loop_wire (S (eg_queued (eg_socks st))) _ b1 _ Hi1) as W2.
+  pose proof (egress_loop_rx (S (eg_queued (eg_socks st))) (mkEg fr1 hw1 id1 (eg_socks st) rx1) b1) as Hrx2.
+  destruct (eg_egress_loop (S (eg_queued (eg_socks st))) ip_mtu _ b1) as ((st2, b2), out2).
+  cbn [fst eg_fr eg_rx] in *. split; [eapply wire_step_app; eassumption | rewrite Hrx2; exact Hrx].
+Qed.
+
+Definition op_in_replies (op : eg_op) : Prop :=
+  match op with ERecv d => In d replies | _ => True end.
+
+Lemma step_wire st op hist :
+  eg_inv_w st hist -> op_in_sub op -> op_in_replies op ->
+  let '(st', out) := eg_step ip_mtu st op in
+  wire_step (eg_fr st) out (eg_fr st') /\ eg_inv_w st' (hist ++ filter frame_is_fragment out).
+Proof.
+  intros Hw Hop Hrp. pose proof Hw as (Hi & Hrep).
+  pose proof (step_inv st op hist Hi Hop) as H1.
+  destruct op as [i P | P | b]; cbn [eg_step op_in_sub op_in_replies] in *.
+  - split; [apply wire_step_nil; reflexivity|]. split; [exact H1 | exact Hrep].
+  - split; [apply wire_step_nil; reflexivity|]. split; [exact H1|].
+    cbn [eg_rx]. apply Forall_app. split; [exact Hrep | constructor; [exact Hrp | constructor]].
+  - pose proof (poll_wire st b hist Hw) as W.
+    destruct (eg_poll ip_mtu st b) as (st', out). destruct W as (W1 & W2).
+    split; [exact W1 | split; assumption].
+Qed.
+
+Lemma run_wire : forall ops st hist,
+  eg_inv_w st hist -> Forall op_in_sub ops -> Forall op_in_replies ops ->
+  let '(st', out) := eg_run ip_mtu st ops in
+  wire_step (eg_fr st) out (eg_fr st').
+Proof.
+  induction ops as [|op rest IH]; intros st hist Hi Hops Hrs; cbn [eg_run].
+  - apply wire_step_nil. reflexivity.
+  - inversion Hops as [|? ? Ho Hr]; subst. inversion Hrs as [|? ? Ho' Hr']; subst.
+    pose proof (step_wire st op hist Hi Ho Ho') as H1.
+    destruct (eg_step ip_mtu st op) as (st1, out1). destruct H1 as (W1 & Hi1).
+    specialize (IH st1 _ Hi1 Hr Hr').
+    destruct (eg_run ip_mtu st1 rest) as (st2, out2).
+    eapply wire_step_app; eassumption.
+Qed.
+
 End EgressOrder.
 
 (* the datagrams an operation sequence hands to the stack *)
@@ -755,6 +1052,59 @@ Proof.
   destruct Hp as (_ & _ & _ & _ & Ho & _). unfold zlen. lia.
 Qed.
 
+(* the datagrams that enter as ingress-triggered replies *)
+Fixpoint ops_replies (ops : list eg_op) : list dgram :=
+  match ops with
+  | [] => []
+  | ERecv d :: rest => d :: ops_replies rest
+  | _ :: rest => ops_replies rest
+  end.
+
+Lemma ops_in_replies ops : Forall (op_in_replies (ops_replies ops)) ops.
+Proof.
+  assert (H : forall rs, (forall P, In P (ops_replies ops) -> In P rs) -> Forall (op_in_replies rs) ops).
+  { induction ops as [|op rest IH]; intros rs Hsub; [constructor|].
+    constructor.
+    - destruct op; cbn in *; try exact I. apply Hsub; left; reflexivity.
+    - apply IH. intros P HP. apply Hsub. destruct op; cbn; try (right; exact HP); exact HP. }
+  apply H. tauto.
+Qed.
+
+(* C12 back to back, wire order: scanning everything the interface emits, between the first and
+   the last fragment of a train NO socket packet appears -- the only whole packets there are
+   ingress-triggered replies -- and the scan ends "inside a train" exactly when the fragmenter
+   still holds unsent fragments.  (A small datagram queued behind an oversized one can therefore
+   not overtake its remaining fragments.) *)
+Lemma c12_no_socket_packet_inside_train ip_mtu bufsize id0 nsocks ops :
+  f4_hdr + 8 <= ip_mtu ->
+  let '(st, out) := eg_run ip_mtu (eg_init bufsize id0 nsocks) ops in
+  wire_ok (ops_replies ops) false out /\
+  train_state false out = negb (fr_finished (eg_fr st)).
+Proof.
+  intros Hmtu.
+  assert (Hi0 : eg_inv_w ip_mtu (ops_payloads ops) (ops_replies ops) (eg_init bufsize id0 nsocks) []).
+  { split; [|constructor]. unfold eg_inv, eg_init. cbn [eg_fr eg_hw eg_socks eg_rx]. split; [|split; [|constructor]].
+    - exists [], []. split; [reflexivity|]. split; [constructor|]. left. split; reflexivity.
+    - unfold queues_in_sub. apply Forall_forall. intros q Hq. apply repeat_spec in Hq. subst q. constructor. }
+  pose proof (run_wire ip_mtu Hmtu (ops_payloads ops) (ops_replies ops) ops _ [] Hi0
+                (ops_in_payloads ops) (ops_in_replies ops)) as H.
+  destruct (eg_run ip_mtu (eg_init bufsize id0 nsocks) ops) as (st, out).
+  exact H.
+Qed.
+
+(* the defect scenario: one socket, 1400 / 1200 / 10 bytes queued back to back at IP MTU 576: the
+   10-byte datagram leaves after both trains, not between the fragments of the first *)
+Definition c12_overtake_ops : list eg_op :=
+  [ESend 0 (1, repeat 17 1408); ESend 0 (1, repeat 34 1208); ESend 0 (1, repeat 51 18);
+   EPoll None; EPoll None; EPoll None; EPoll None].
+
+Lemma c12_overtake_example :
+  map (fun f => (p_is_fragment (snd f), p_offset (snd f), zlen (p_payload (snd f)), hd 0 (p_payload (snd f))))
+      (snd (eg_run 576 (eg_init cfg_FRAGMENTATION_BUFFER_SIZE 7 1) c12_overtake_ops)) =
+  [(true, 0, 552, 17); (true, 552, 552, 17); (true, 1104, 304, 17);
+   (true, 0, 552, 34); (true, 552, 552, 34); (true, 1104, 104, 34); (false, 0, 18, 51)].
+Proof. vm_compute. reflexivity. Qed.
+
 (* a packet that is dropped (buffer too small, fragmenter busy) or emitted whole changes nothing
    in the fragmenter, in particular not the stored link-layer address; only starting a train
    stores the address resolved for that datagram *)
@@ -811,14 +1161,6 @@ Proof.
   - right. right. exists id. apply Hsub. exact H.
 Qed.
 
-Lemma eg_dispatch_ip_parts ip_mtu ident fr hwst d :
-  eg_dispatch_ip ip_mtu ident fr hwst d =
-  (fst (fst (f4_dispatch_ip ip_mtu ident fr (snd d))),
-   match snd (f4_dispatch_ip ip_mtu ident fr (snd d)) with DipFragStarted => fst d | _ => hwst end,
-   map (pair (fst d)) (snd (fst (f4_dispatch_ip ip_mtu ident fr (snd d)))),
-   snd (f4_dispatch_ip ip_mtu ident fr (snd d))).
-Proof. unfold eg_dispatch_ip. destruct (f4_dispatch_ip ip_mtu ident fr (snd d)) as ((fr', out), r). reflexivity. Qed.
-
 Lemma socket_egress_conserves ip_mtu B : f4_hdr + 8 <= ip_mtu -> forall socks fr hwst id b,
   zlen (fr_buffer fr) = B ->
   let '(fr', _, _, _, socks', out, _) := eg_socket_egress ip_mtu fr hwst id b socks in
@@ -832,7 +1174,7 @@ Proof.
     + specialize (IH fr hwst id b HB).
       destruct (eg_socket_egress ip_mtu fr hwst id b rest) as ((((((fr2, hw2), id2), b2), rest2), out2), ch).
       destruct IH as (IH1 & IH2). split; [exact IH1 | constructor; [left; reflexivity | exact IH2]].
-    + destruct (eg_needs_frag ip_mtu (snd d) && negb (fr_finished fr)) eqn:Hbusy.
+    + destruct (negb (fr_finished fr)) eqn:Hbusy.
       * specialize (IH fr hwst id b HB).
         destruct (eg_socket_egress ip_mtu fr hwst id b rest) as ((((((fr2, hw2), id2), b2), rest2), out2), ch).
         destruct IH as (IH1 & IH2). split; [exact IH1 | constructor; [left; reflexivity | exact IH2]].
@@ -841,15 +1183,12 @@ Proof.
         -- pose proof (dispatch_ip_buflen ip_mtu id fr (snd d)) as Hlen.
            assert (Hd : dequeued_ok ip_mtu B (map (pair (fst d)) (snd (fst (f4_dispatch_ip ip_mtu id fr (snd d))))) (d :: q') q').
            { right. exists d. split; [reflexivity|].
-             unfold eg_needs_frag in Hbusy.
              destruct (Z_le_gt_dec (f4_hdr + zlen (snd d)) ip_mtu) as [Hs | Hbig].
              - left. split; [exact Hs|]. rewrite dispatch_ip_small by exact Hs. left. reflexivity.
              - destruct (Z_lt_ge_dec B (f4_hdr + zlen (snd d))) as [Htoo | Hfit].
                + right. left. split; lia.
                + right. right. exists id.
-                 assert (Hfin : fr_finished fr = true).
-                 { destruct (fr_finished fr); [reflexivity|].
-                   replace (f4_hdr + zlen (snd d) >? ip_mtu) with true in Hbusy by lia. discriminate. }
+                 assert (Hfin : fr_finished fr = true) by (destruct (fr_finished fr); [reflexivity | discriminate]).
                  destruct (dispatch_ip_start ip_mtu id fr (snd d) Hmtu Hfin ltac:(lia) ltac:(lia)) as (fr' & Hd & _).
                  rewrite Hd. left. reflexivity. }
            destruct (eg_dispatch_ip ip_mtu id fr hwst d) as (((fr1, hw1), out), r) eqn:He.
